@@ -215,8 +215,24 @@ def cli_leg(rep, tier):
         for vs in ex.map(one, range(len(graphs))):
             n += 2
             for sig, det, case in vs: rep.add_violation(sig, det, case, replay=dict(kind="cli"))
+    # batch mode over documents in different folders: each resolves its markers in its own folder (2 and 3 documents, every order)
+    import itertools
+    bd = os.path.join(base, "batch"); names = ["one", "two", "three"]
+    for nm in names:
+        os.makedirs(os.path.join(bd, nm)); open(os.path.join(bd, nm, "inc.txt"), "wb").write(b"INC-of-" + nm.encode() + b"\n")
+        open(os.path.join(bd, nm, "doc.txt"), "wb").write(b"doc " + nm.encode() + b" {{inc.txt}} end\n")
+    for k in (2, 3):
+        for order in itertools.permutations(names, k):
+            for nm in names:
+                for f in os.listdir(os.path.join(bd, nm)):
+                    if f not in ("inc.txt", "doc.txt"): os.unlink(os.path.join(bd, nm, f))
+            subprocess.run([cli, "-b", "-t", "html"] + [os.path.join(bd, nm, "doc.txt") for nm in order], capture_output=True, cwd=base, timeout=60); n += 1
+            for nm in order:
+                o = os.path.join(bd, nm, "doc.html"); got = open(o, "rb").read() if os.path.exists(o) else b"<no output file>"
+                if (b"INC-of-" + nm.encode()) not in got:
+                    rep.add_violation("transclude:cli-batch:marker-resolved-in-another-folder", "batch %r: %s/doc.txt rendered as %r" % (order, nm, got[:120]), dict(order=list(order), document=nm), replay=dict(kind="cli"))
     shutil.rmtree(base, ignore_errors=True)
-    rep.add_level("cli", n, n, True, time.time() - t0, max(len(graphs), 2), "real CLI -t mmd / -t html on a sub-grid of include graphs (main.c resolves folder and absolute path)")
+    rep.add_level("cli", n, n, True, time.time() - t0, max(len(graphs), 2), "real CLI -t mmd / -t html on a sub-grid of include graphs (main.c resolves folder and absolute path) and batch mode over 2-3 documents in different folders, every order")
 
 def run(tier):
     rep = core.Report("C13", tier, "exploration")
